@@ -23,6 +23,18 @@ def main():
         want = meta.get("confirmed_by_integrator", {}).get("caught_by") or []
         props = want if want else [meta["property"]]
         seeds.append((sid, props, bool(want)))
+    # seeds of the properties whose engines changed most recently first
+    first = ("C01", "C04", "C05", "C09", "C16", "C17", "C20", "C06", "C13", "C11")
+    seeds.sort(key=lambda x: (0 if x[0][:3] in first else 1, x[0]))
+    import threading
+    wlock = threading.Lock()
+    def heads():
+        return {"repo_head": subprocess.run(["git", "-C", "/repo", "rev-parse", "--short", "HEAD"], stdout=subprocess.PIPE, text=True).stdout.strip(),
+                "verif_head": subprocess.run(["git", "-C", "/verif", "rev-parse", "--short", "HEAD"], stdout=subprocess.PIPE, text=True).stdout.strip()}
+    def save():
+        with wlock:
+            json.dump({**heads(), "complete": len(results) == len(seeds), "results": dict(sorted(results.items()))},
+                      open("/verif/seeded/SWEEP.partial.json", "w"), indent=1)
     slots = queue.Queue()
     for i in range(jobs): slots.put(str(i + 1))
     results = {}
@@ -46,6 +58,7 @@ def main():
             print(f"{sid}: ran {props} -> caught by {caught}" + ("" if applies else "  (PATCH DOES NOT APPLY)"), flush=True)
         finally:
             slots.put(slot)
+            save()
     with ThreadPoolExecutor(jobs) as ex:
         list(ex.map(run, seeds))
     out = {"repo_head": subprocess.run(["git", "-C", "/repo", "rev-parse", "--short", "HEAD"], stdout=subprocess.PIPE, text=True).stdout.strip(),
